@@ -3,6 +3,7 @@ import UrcuVerif.Handshake.QsbrTso
 import UrcuVerif.Handshake.WaitNode
 import UrcuVerif.Src.ReadLocal
 import UrcuVerif.CallRcu.Wake
+import UrcuVerif.CallRcu.Barrier
 import UrcuVerif.Defer.ConcWake
 /-!
 # Futex wait / wake handshakes: thread-local automata (generic layer + grace-period models)
@@ -12,8 +13,8 @@ All the futex waiters of /repo have the same shape
     while (load(futex) == A) { if (!futex(FUTEX_WAIT, A)) continue; switch (errno) { EAGAIN: leave; EINTR: again; default: die } }
 
 and all the wakers the shape `if (load(futex) == -1) { store(futex, 0); futex(FUTEX_WAKE, 1) }`.  The L2 models
-(`Handshake/Tso.lean`, `Handshake/QsbrTso.lean`, `CallRcu/Wake.lean`, `Defer/ConcWake.lean`, `Wq/…`,
-`Handshake/WaitNode.lean`) cut this loop into labels at different granularities.  This file therefore has two layers:
+(`Handshake/Tso.lean` = `Hs`, `Handshake/QsbrTso.lean` = `Qs`, `CallRcu/Wake.lean` = `Cr`, `CallRcu/Barrier.lean` = `Br`,
+`Defer/ConcWake.lean` = `Df`, `Handshake/WaitNode.lean` = `Wn`; `Wq/…`: see `Src/WqRefine.lean`) cut this loop into labels at different granularities.  This file therefore has two layers:
 
 * the **generic** waiter automaton `gwstep` (pcs `chk → call → asleep → chk`, `done`) and waker automaton `gkstep`
   (pcs `k1 → k2 → k3 → k4`) whose labels are one per source access *with the values observed* – the finest common
@@ -1007,5 +1008,196 @@ theorem projK_frame (s s' : State) (l : Label) (st : step s l = some s') (ho : o
     | (simp only [Option.some.injEq] at st; subst st; simp_all [ownedK, touch])
 
 end Wn
+
+/-! ## `CallRcu/Barrier.lean` (the completion futex of `rcu_barrier()`): caller `t` = waiter
+(`call_rcu_completion_wait`), the marker callback on helper `h` = waker (`call_rcu_completion_wake_up`)
+
+Only the futex part of the two programs (labels `bWaitLd bWaitFx bSpurious` and `mLdFut mStFut mWake`). -/
+
+namespace Br
+open CallRcu
+
+inductive WLabel
+  | bWaitLd (v : Int) | bWaitFx (o : FOut) | woken
+  deriving DecidableEq, Repr
+
+def WLabel.toL2 (t : Nat) : WLabel → BLabel
+  | .bWaitLd _ => .bWaitLd t | .bWaitFx o => .bWaitFx t o | .woken => .bSpurious t
+
+/-- local automaton of caller `t` inside `call_rcu_completion_wait`: its pc (which carries the completion `b`) -/
+def lstep (pc : BPc) : WLabel → Option BPc
+  | .bWaitLd v =>
+    match pc with
+    | .waitLd b => some (if v = -1 then .waitFx b else .dec b)
+    | _ => none
+  | .bWaitFx o =>
+    match pc with
+    | .waitFx b =>
+      match o with
+      | .sleep => some (.asleep b)
+      | .eagain => some (.dec b)
+      | .eintr => some (.waitLd b)
+      | .spurious => some (.waitLd b)
+    | _ => none
+  | .woken =>
+    match pc with
+    | .asleep b => some (.waitLd b)
+    | _ => none
+
+def ObsW (s : BState) (t : Nat) : WLabel → Prop
+  | .bWaitLd v => ∀ b, s.bpc t = .waitLd b → v = s.fut b
+  | _ => True
+
+def GuardW (s : BState) (t : Nat) : WLabel → Prop
+  | .bWaitLd v => ∀ b, s.bpc t = .waitLd b → v = s.fut b
+  | .bWaitFx .sleep => ∀ b, s.bpc t = .waitFx b → s.fut b = -1
+  | .bWaitFx .eagain => ∀ b, s.bpc t = .waitFx b → s.fut b ≠ -1
+  | _ => True
+
+theorem projW_step (c : Cfg) (s s' : BState) (t : Nat) (l : WLabel)
+    (st : bstep c s (l.toL2 t) = some s') (ho : ObsW s t l) : lstep (s.bpc t) l = some (s'.bpc t) := by
+  cases l with
+  | bWaitFx o =>
+    cases o <;> simp only [WLabel.toL2, bstep] at st <;> (repeat' split at st) <;>
+      first
+      | (simp at st; done)
+      | (simp only [Option.some.injEq] at st; subst st; simp_all [ObsW, lstep, upd])
+  | _ =>
+    simp only [WLabel.toL2, bstep] at st <;> (repeat' split at st) <;>
+      first
+      | (simp at st; done)
+      | (simp only [Option.some.injEq] at st; subst st; simp_all [ObsW, lstep, upd])
+
+theorem projW_enabled (c : Cfg) (s : BState) (t : Nat) (l : WLabel) (pc' : BPc)
+    (hl : lstep (s.bpc t) l = some pc') (hg : GuardW s t l) :
+    ∃ s', bstep c s (l.toL2 t) = some s' ∧ s'.bpc t = pc' := by
+  cases l with
+  | bWaitFx o =>
+    cases o <;> simp only [lstep] at hl <;> (repeat' split at hl) <;>
+      first
+      | (simp at hl; done)
+      | (simp only [Option.some.injEq] at hl; subst hl; simp_all [GuardW, WLabel.toL2, bstep, upd])
+  | _ =>
+    simp only [lstep] at hl <;> (repeat' split at hl) <;>
+      first
+      | (simp at hl; done)
+      | (simp only [Option.some.injEq] at hl; subst hl; simp_all [GuardW, WLabel.toL2, bstep, upd])
+
+/-- the marker's FUTEX_WAKE (`mWake h`) either leaves caller `t`'s pc alone or acts on it like the local label `woken` -/
+theorem projW_env_wake (c : Cfg) (s s' : BState) (h t : Nat) (st : bstep c s (.mWake h) = some s') :
+    s'.bpc t = s.bpc t ∨ lstep (s.bpc t) .woken = some (s'.bpc t) := by
+  simp only [bstep] at st
+  split at st
+  · split at st
+    · simp only [Option.some.injEq] at st; subst st
+      rename_i b _ _ _
+      by_cases hb : s.bpc (s.caller b) = .asleep b
+      · by_cases ht : s.caller b = t
+        · subst ht; right; simp [hb, lstep, upd]
+        · left; simp [hb, upd, ht]; intro h; exact absurd h.symm ht
+      · left; simp [hb]
+    · simp at st
+  · simp at st
+
+/-- the caller thread whose pc a label of `rcu_barrier()` moves -/
+def ownerW : BLabel → Option Nat
+  | .bCall t | .bLock t | .bInit t | .bEnq t _ _ | .bUnlock t | .bDec t | .bLdCnt t | .bWaitLd t | .bWaitFx t _
+  | .bSpurious t | .bPut t => some t
+  | _ => none
+
+/-- every label that is neither caller `t`'s nor a marker's FUTEX_WAKE leaves `t`'s pc unchanged (all the C03 labels
+`.base l`, other callers' labels, the markers' `mSub mLdFut mStFut mPut`, `bRefused`) -/
+theorem projW_frame (c : Cfg) (s s' : BState) (t : Nat) (l : BLabel)
+    (st : bstep c s l = some s') (ho : ownerW l ≠ some t) (hw : ∀ h, l ≠ .mWake h) : s'.bpc t = s.bpc t := by
+  cases l <;> simp only [bstep] at st <;> (repeat' split at st) <;>
+    first
+    | (simp at st; done)
+    | (simp only [Option.some.injEq] at st; subst st; simp_all [ownerW, upd] <;> grind)
+
+/-- the helper whose marker pc a label moves (`hRunEnd h` resets it) -/
+def ownerK : BLabel → Option Nat
+  | .mSub h | .mLdFut h | .mStFut h | .mWake h | .mPut h => some h
+  | .base (.hRunEnd h) => some h
+  | _ => none
+
+theorem projK_frame (c : Cfg) (s s' : BState) (h : Nat) (l : BLabel)
+    (st : bstep c s l = some s') (ho : ownerK l ≠ some h) : s'.mpc h = s.mpc h := by
+  cases l <;> simp only [bstep] at st <;> (repeat' split at st) <;>
+    first
+    | (simp at st; done)
+    | (simp only [Option.some.injEq] at st; subst st; simp_all [ownerK, upd] <;> grind)
+
+def pcMap (b : Nat) : GWPc → BPc
+  | .chk => .waitLd b | .call => .waitFx b | .asleep => .asleep b | .done => .dec b
+
+def gw2l : GWLabel → List WLabel
+  | .ldArmed => [.bWaitLd (-1)] | .ldOther v => [.bWaitLd v] | .sleep => [.bWaitFx .sleep] | .woken => [.woken]
+  | .eagain => [.bWaitFx .eagain] | .intr => [.bWaitFx .eintr]
+
+theorem sim (b : Nat) (g : GWPc) (l : GWLabel) (g' : GWPc) (h : gwstep (-1) g l = some g') :
+    runA lstep (pcMap b g) (gw2l l) = some (pcMap b g') := by
+  cases g <;> cases l <;> simp only [gwstep] at h <;> (try split at h) <;> simp at h <;> subst h <;>
+    simp_all [runA, gw2l, lstep, pcMap]
+
+/-! ### the marker callback on helper `h` as waker -/
+
+inductive KLabel
+  | mLdFut (v : Int) | mStFut | mWake
+  deriving DecidableEq, Repr
+
+def KLabel.toL2 (h : Nat) : KLabel → BLabel
+  | .mLdFut _ => .mLdFut h | .mStFut => .mStFut h | .mWake => .mWake h
+
+def kstep (pc : MPc) : KLabel → Option MPc
+  | .mLdFut v => if pc = .ldFut then some (if v = -1 then .stFut else .put) else none
+  | .mStFut => if pc = .stFut then some .wake else none
+  | .mWake => if pc = .wake then some .put else none
+
+def ObsK (s : BState) (h : Nat) : KLabel → Prop
+  | .mLdFut v => ∀ b h', s.mrun h = some (b, h') → v = s.fut b
+  | _ => True
+
+/-- the marker runs (`mrun h` is set) and the value loaded is the completion's futex word -/
+def GuardK (s : BState) (h : Nat) : KLabel → Prop
+  | .mLdFut v => ∃ b h', s.mrun h = some (b, h') ∧ v = s.fut b
+  | _ => (s.mrun h).isSome = true
+
+theorem projK_step (c : Cfg) (s s' : BState) (h : Nat) (l : KLabel)
+    (st : bstep c s (l.toL2 h) = some s') (ho : ObsK s h l) : kstep (s.mpc h) l = some (s'.mpc h) := by
+  cases l <;> simp only [KLabel.toL2, bstep] at st <;> (repeat' split at st) <;>
+    first
+    | (simp at st; done)
+    | (simp only [Option.some.injEq] at st; subst st; simp_all [ObsK, kstep, upd])
+
+theorem projK_enabled (c : Cfg) (s : BState) (h : Nat) (l : KLabel) (pc' : MPc)
+    (hl : kstep (s.mpc h) l = some pc') (hg : GuardK s h l) :
+    ∃ s', bstep c s (l.toL2 h) = some s' ∧ s'.mpc h = pc' := by
+  cases l <;> simp only [kstep] at hl <;> (repeat' split at hl) <;>
+    first
+    | (simp at hl; done)
+    | (simp only [Option.some.injEq] at hl; subst hl
+       simp only [GuardK] at hg
+       first
+       | (obtain ⟨b, h', hm, hv⟩ := hg; simp_all [KLabel.toL2, bstep, upd])
+       | (cases hm : s.mrun h with
+          | none => simp [hm] at hg
+          | some p => obtain ⟨b, h'⟩ := p; simp_all [KLabel.toL2, bstep, upd]))
+
+/-- generic waker ↦ the marker's pcs (`mLdFut` already branches on the value: the generic pc `k2` with register `r` is
+`stFut` or `put`) -/
+def kMap (s : GKState) : MPc :=
+  match s.kpc with
+  | .k1 => .ldFut | .k2 => (if s.r = -1 then .stFut else .put) | .k3 => .wake | .k4 => .put
+
+def gk2l : GKLabel → List KLabel
+  | .k1 v => [.mLdFut v] | .k2Wake => [.mStFut] | .k2Skip => [] | .k3 => [.mWake]
+
+theorem simK (s : GKState) (l : GKLabel) (s' : GKState) (h : gkstep s l = some s') :
+    runA kstep (kMap s) (gk2l l) = some (kMap s') := by
+  obtain ⟨pc, r⟩ := s
+  cases l <;> simp only [gkstep] at h <;> split at h <;> simp at h <;> subst h <;>
+    simp_all [runA, gk2l, kstep, kMap]
+
+end Br
 
 end UrcuVerif.Src.Futex
